@@ -8,7 +8,7 @@
    holds for every junk.  `sort`, `find`, `adler_*` stand for libc qsort / bsearch and zlib adler32.
    This file contains only statements, `exact` proofs and Print Assumptions. *)
 From Coq Require Import ZArith List Bool Permutation.
-From ScV Require Import Base.CInt Gen.Array C18.MacroProofs C08.ArrayModel C08.ArrayLists C08.ArrayGen C08.ArrayRefine C08.ArrayStep C08.ArrayTop C08.ArrayAlgo C08.ArrayFull.
+From ScV Require Import Base.CInt Gen.Array C18.MacroProofs C08.ArrayModel C08.ArrayLists C08.ArrayGen C08.ArrayRefine C08.ArrayStep C08.ArrayTop C08.ArrayAlgo C08.ArrayFull Gen.ArrayPermC08 C08.ArrayPermGen.
 Import ListNotations.
 Local Open Scope Z_scope.
 
@@ -161,6 +161,69 @@ Print Assumptions C08_gen_rewind.
 Theorem C08_gen_destroy : forall e c b off, sc_array_destroy e c b off = (if 0 <=? b then 5 else 0, 1).
 Proof. exact destroy_val. Qed.
 Print Assumptions C08_gen_destroy.
+
+(* ----- sc_array_permute, cut into GENERATED slices (Gen/ArrayPermC08.v): set-up, loop conditions, one iteration of the
+   inner loop with its three memcpy calls, the statements around it.  The loop model of the concrete machine
+   (permute_model / permute_outer / permute_inner of ArrayModel.v, which C08_refines and C08_loops_ok are about) is,
+   unfolding by unfolding, what the generated slices compute. *)
+Theorem C08_gen_permute_inner : forall f (l : list (list Z)) ni zi zj zk temp carray esize,
+  0 <= esize -> 0 <= zi -> 0 <= zk -> esize * zi <= MAXB -> esize * zk <= MAXB ->
+  permute_inner (S f) l ni zi zj zk =
+  if c8_permute_inner_cond zk zi then
+    let '(zj1, zk1, nzj, _, _, _, _, _, _, _, _, _) := c8_permute_inner_step temp carray esize zk zi (nthz ni zk) in
+    permute_inner f (swapn l zi zk) (setn ni (Z.to_nat zj1) nzj) zi zj1 zk1
+  else Some (l, ni, zj).
+Proof. exact gen_permute_inner_eq. Qed.
+Print Assumptions C08_gen_permute_inner.
+
+Theorem C08_gen_permute_outer : forall f (l : list (list Z)) ni zi zj count,
+  0 <= zi <= MAXB ->
+  permute_outer (S f) l ni zi zj count =
+  if c8_permute_outer_cond zi count then
+    match permute_inner (S (Z.to_nat count)) l ni zi zj (c8_permute_outer_pre (nthz ni zj)) with
+    | None => None
+    | Some (l1, ni1, _) =>
+      let '(nzi, zi1, zj1) := c8_permute_outer_post zi in permute_outer f l1 (setn ni1 (Z.to_nat zi) nzi) zi1 zj1 count
+    end
+  else Some (l, ni).
+Proof. exact gen_permute_outer_eq. Qed.
+Print Assumptions C08_gen_permute_outer.
+
+Theorem C08_gen_permute_start : forall (l : list (list Z)) ni,
+  permute_model l ni = let '(zi, zj) := c8_permute_init in permute_outer (S (length l)) l ni zi zj (Z.of_nat (length l)).
+Proof. exact gen_permute_model_eq. Qed.
+Print Assumptions C08_gen_permute_start.
+
+(* The exchange inside the inner loop, on a byte memory (`mcpy m dst src n` = memory after memcpy (dst, src, n)): if the
+   elements of l lie at carray + esize * i and the temporary element lies outside the array, then after the three
+   GENERATED memcpy calls the memory holds `swapn l zi zk` - both elements are exchanged in ALL their bytes, for every
+   element size >= 1 -, nothing outside the two elements and the temporary is written, and the temporary is used with
+   exactly esize bytes.  (`swapn` is the step of permute_inner above.) *)
+Theorem C08_gen_permute_exchange : forall m (l : list (list Z)) temp carray esize zi zk nzk,
+  0 < esize -> (zi < length l)%nat -> (zk < length l)%nat -> zi <> zk ->
+  esize * Z.of_nat (length l) <= MAXB ->
+  (temp + esize <= carray \/ carray + esize * Z.of_nat (length l) <= temp) ->
+  holds m carray esize l ->
+  let '(_, _, _, d1, s1, n1, d2, s2, n2, d3, s3, n3) :=
+    c8_permute_inner_step temp carray esize (Z.of_nat zk) (Z.of_nat zi) nzk in
+  let m' := mcpy (mcpy (mcpy m d1 s1 n1) d2 s2 n2) d3 s3 n3 in
+  holds m' carray esize (swapn l (Z.of_nat zi) (Z.of_nat zk)) /\
+  (forall a, ~ (temp <= a < temp + esize) ->
+             ~ (carray + esize * Z.of_nat zi <= a < carray + esize * Z.of_nat zi + esize) ->
+             ~ (carray + esize * Z.of_nat zk <= a < carray + esize * Z.of_nat zk + esize) -> m' a = m a) /\
+  d1 = temp /\ n1 = esize /\ s3 = temp /\ n3 = esize.
+Proof. exact gen_permute_exchange. Qed.
+Print Assumptions C08_gen_permute_exchange.
+
+(* set-up: esize = elem_size, count = elem_count, carray = array->array, and the temporary element is allocated with
+   elem_size bytes; an empty array returns at once; newind is the storage of newindices itself (keepperm = 0) or a
+   private copy of count * 8 bytes filled by one memcpy of count * 8 bytes from sc_array_index (newindices, 0) *)
+Theorem C08_gen_permute_setup : forall e ret arr cnt keep p0 p1, 0 <= e <= MAXB -> 0 <= cnt -> cnt * 8 <= MAXB ->
+  c8_permute_setup e ret arr cnt = (e, cnt, arr, ret, e) /\
+  c8_permute_empty cnt = (cnt =? 0) /\
+  c8_permute_newind keep p0 cnt ret p1 = (if keep =? 0 then (p0, 0, 0, 0, 0, 0, 0) else (ret, 1, cnt * 8, 1, ret, p1, cnt * 8)).
+Proof. intros; split; [apply gen_permute_setup|split; [apply gen_permute_empty|apply gen_permute_newind]]; assumption. Qed.
+Print Assumptions C08_gen_permute_setup.
 
 (* ===== derived results ============================================================================================ *)
 
